@@ -66,7 +66,7 @@ func kName(k int) string {
 
 type pg struct{ k, g int } // a gathering generation of proof identity k
 
-type genstat struct{ subs, fails int }
+type genstat struct{ subs, fails, oks int }
 
 type shouldEnt struct {
 	cu     uint64
@@ -233,6 +233,7 @@ type txMock struct {
 	calls      []txCall
 	viols      []ev.Violation
 	claimEpoch uint64
+	baseG      int  // number of goroutines right before the claim
 }
 
 func (m *txMock) GetEpochSizeMultipliedByRecommendedEpochNumToCollectPayment(context.Context) (uint64, error) {
@@ -254,24 +255,32 @@ func (m *txMock) TxRelayPayment(_ context.Context, relays []*pairingtypes.RelayS
 		// other claim goroutine, if any, has completely finished (its retry-table update included)
 		me := goid()
 		for spin := 0; ; spin++ {
-			parked, sibs := false, 0
-			for _, b := range allStacks() {
-				id := blockID(b)
-				switch {
-				case id == m.claimer:
-					parked = strings.Contains(b, "sync.(*WaitGroup).Wait")
-				case id == me:
-				case strings.Contains(b, "sendRewardsClaim"):
-					sibs++
+			// cheap pre-check (no stop-the-world): only the claimer and this goroutine are left; the stack
+			// inspection below stays the deciding test
+			if spin > 2000 || runtime.NumGoroutine() <= m.baseG+1 {
+				parked, sibs := false, 0
+				for _, b := range allStacks() {
+					id := blockID(b)
+					switch {
+					case id == m.claimer:
+						parked = strings.Contains(b, "sync.(*WaitGroup).Wait")
+					case id == me:
+					case strings.Contains(b, "sendRewardsClaim"):
+						sibs++
+					}
+				}
+				if parked && sibs == 0 {
+					break
 				}
 			}
-			if parked && sibs == 0 {
-				break
-			}
-			if spin > 5_000_000 {
+			if spin > 20_000_000 {
 				panic("c29 harness: claim goroutine gate never opened")
 			}
-			runtime.Gosched()
+			if spin < 200 {
+				runtime.Gosched()
+			} else {
+				time.Sleep(20 * time.Microsecond)
+			}
 		}
 	}
 	m.mu.Lock()
@@ -292,6 +301,8 @@ func (m *txMock) TxRelayPayment(_ context.Context, relays []*pairingtypes.RelayS
 		st.subs++
 		if !ok {
 			st.fails++
+		} else {
+			st.oks++
 		}
 		e := uint64(p.Epoch)
 		if e+blockDist > m.claimEpoch {
@@ -364,6 +375,9 @@ type scen struct {
 	tmpl  [8][3]*pairingtypes.RelaySession
 	addr  [2]string
 	addrK map[string]int // consumer address -> consumer index
+	// signature -> consumer index of every proof the harness ever signs (identifies the signer of restored
+	// proofs without another public-key recovery)
+	sigCons map[string]int
 
 	// per-history state
 	db       *memDB
@@ -393,9 +407,28 @@ type scen struct {
 	rebuilds      int
 }
 
-func newScen() *scen {
+// alphabet restricts the operation alphabet of a scenario (the full alphabet is the zero value).
+type alphabet struct {
+	cuIdx   []int        // indexes into cus; nil: all
+	sessIdx []int        // indexes into sessions; nil: all
+	kinds   map[int]bool // operation kinds; nil: all
+}
+
+func has(xs []int, x int) bool {
+	if xs == nil {
+		return true
+	}
+	for _, y := range xs {
+		if y == x {
+			return true
+		}
+	}
+	return false
+}
+
+func newScen(al alphabet) *scen {
 	utils.SetGlobalLoggingLevel("fatal") // errors are still built by the code under test, only the output is dropped
-	s := &scen{addrK: map[string]int{}}
+	s := &scen{addrK: map[string]int{}, sigCons: map[string]int{}}
 	var keys [2]sigs.Account
 	for ci := 0; ci < 2; ci++ {
 		keys[ci] = sigs.GenerateDeterministicFloatingKey(bytes.NewReader([]byte(fmt.Sprintf("c29-consumer-%d--", ci+1))))
@@ -420,11 +453,24 @@ func newScen() *scen {
 			}
 			p.Sig = sig
 			s.tmpl[k][cui] = p
+			s.sigCons[string(sig)] = kCons(k)
 		}
 	}
-	add := func(o opdef) { s.ops = append(s.ops, o); s.names = append(s.names, o.name) }
+	add := func(o opdef) {
+		if al.kinds != nil && !al.kinds[o.kind] {
+			return
+		}
+		if (o.kind == opProof || o.kind == opPayment) && !has(al.sessIdx, o.k%2) {
+			return
+		}
+		s.ops = append(s.ops, o)
+		s.names = append(s.names, o.name)
+	}
 	for k := 0; k < 8; k++ {
 		for cui, cu := range cus {
+			if !has(al.cuIdx, cui) {
+				continue
+			}
 			add(opdef{name: fmt.Sprintf("proof(%s,cu=%d)", kName(k), cu), kind: opProof, k: k, cui: cui})
 		}
 	}
@@ -584,7 +630,9 @@ func (s *scen) onDelete(key, shape string) {
 	}
 	// two stable shapes: the stored proof had been submitted (its retries are cut short) or never was
 	how := "never-submitted"
-	if st := s.gs[ent.g]; st != nil && st.subs > 0 {
+	if st := s.gs[ent.g]; st != nil && st.oks > 0 {
+		how = "already-submitted-ok" // the stored proof was submitted successfully and waits for its payment event
+	} else if st != nil && st.subs > 0 {
 		how = "retried-fewer-than-max"
 	}
 	ent.lostBy = s.cause + ":" + shape + ":" + how
@@ -712,9 +760,9 @@ func (s *scen) probe(op dbop, E, M uint64) *ev.Violation {
 	srv.VerifSendRewardsClaim(bg, claimE)
 	sub := map[int]uint64{}
 	for _, p := range tx.subs {
-		ci, ok := s.addrK[addrOf(p)]
+		ci, ok := s.sigCons[string(p.Sig)]
 		if !ok {
-			continue
+			panic("c29 harness: a restarted server submitted a proof the harness never signed")
 		}
 		for ei := range proofEpochs {
 			for si := range sessions {
@@ -738,14 +786,6 @@ func (s *scen) probe(op dbop, E, M uint64) *ev.Violation {
 		}
 	}
 	return nil
-}
-
-func addrOf(p *pairingtypes.RelaySession) string {
-	a, err := sigs.ExtractSignerAddress(p)
-	if err != nil {
-		return ""
-	}
-	return a.String()
 }
 
 func (s *scen) exec(op int, probe bool) result {
@@ -889,6 +929,7 @@ func (s *scen) exec(op int, probe bool) result {
 		m.preRetry, m.claimer, m.newFirst = pre, goid(), !o.retryFirst
 		m.okByKind = [2]bool{o.okNew, o.okRetry}
 		m.calls, m.viols, m.claimEpoch = nil, nil, s.E
+		m.baseG = runtime.NumGoroutine()
 		pendingBefore := s.pending
 		s.cause = "claim"
 		s.srv.VerifSendRewardsClaim(bg, s.E)
@@ -1088,9 +1129,9 @@ func (s *scen) hashPerm(sw int) []byte {
 	stat := func(g pg) string {
 		st := s.gs[g]
 		if st == nil {
-			return "0/0"
+			return "0/0/false"
 		}
-		return fmt.Sprintf("%d/%d", st.subs, st.fails)
+		return fmt.Sprintf("%d/%d/%v", st.subs, st.fails, st.oks > 0)
 	}
 	for kk := 0; kk < 8; kk++ {
 		k := kk ^ sw
@@ -1122,37 +1163,71 @@ func (s *scen) hashPerm(sw int) []byte {
 	return h.Sum(nil)[:16]
 }
 
+// Scenarios: the full alphabet, the same with cu restricted to {10,20} (quick tier), and the claim/retry
+// sub-alphabet (one session id, one cu, proofs and epoch updates only) that is searched deeper.
+var scenarios = map[string]alphabet{
+	"c29/rewards":     {},
+	"c29/rewards-cu2": {cuIdx: []int{0, 1}},
+	"c29/retries":     {cuIdx: []int{0}, sessIdx: []int{0}, kinds: map[int]bool{opProof: true, opClaim: true}},
+}
+
+const boundText = "proof(consumer c1|c2, session %s shared by both consumers, cu %s, epoch 20|30) via SendNewProof, epochUpdate+claim with tx result per claim goroutine (ok/fail) x same-session order inside the claim (asc/desc) x goroutine order%s"
+
 func init() {
-	bfs.Register("c29/rewards", func() bfs.Scenario { return newScen() })
+	for name, al := range scenarios {
+		al := al
+		bfs.Register(name, func() bfs.Scenario { return newScen(al) })
+	}
 	reg.Register(reg.Check{Property: "C29", Level: "model_checking", Run: func(run *ev.Run) {
-		depth, deadline := 5, 75*time.Second
+		type part struct {
+			scen, prefix string
+			depth        int
+			deadline     time.Duration
+			bound        string
+		}
+		rest := ", snapshot, paymentEvent per proof identity, advanceChainMemory (earliest 20->30->40), crash+restart; plus a restart at every prefix of the DB-operation log"
+		parts := []part{
+			{"c29/rewards-cu2", "events", 5, 70 * time.Second, fmt.Sprintf(boundText, "7|8", "10|20", rest)},
+			{"c29/retries", "retries", 8, 40 * time.Second, fmt.Sprintf(boundText, "7", "10", "")},
+		}
 		if ev.Tier() == "thorough" {
-			depth, deadline = 7, 13*time.Minute
+			parts = []part{
+				{"c29/rewards", "events", 6, 11 * time.Minute, fmt.Sprintf(boundText, "7|8", "10|20|30", rest)},
+				{"c29/retries", "retries", 10, 3 * time.Minute, fmt.Sprintf(boundText, "7", "10", "")},
+			}
 		}
 		if d, err := strconv.Atoi(os.Getenv("VERIF_C29_DEPTH")); err == nil && d > 0 {
-			depth = d // development override
+			parts[0].depth = d // development override
 		}
-		cfg := bfs.Config{Scenario: "c29/rewards", MaxDepth: depth, Deadline: deadline}
-		st := bfs.Explore(cfg, run)
-		bfs.Report(run, "", cfg, st)
+		exhaustive := true
 		var crashPoints, opsWithDBWrites int64
-		for obs, n := range st.Outcomes {
-			if i := strings.LastIndex(obs, "|cp="); i >= 0 {
-				c, _ := strconv.ParseInt(obs[i+4:], 10, 64)
-				crashPoints += c * n
-				if c > 0 {
-					opsWithDBWrites += n
+		var bounds []string
+		for _, p := range parts {
+			cfg := bfs.Config{Scenario: p.scen, MaxDepth: p.depth, Deadline: p.deadline}
+			st := bfs.Explore(cfg, run)
+			bfs.Report(run, p.prefix, cfg, st)
+			for obs, n := range st.Outcomes {
+				if i := strings.LastIndex(obs, "|cp="); i >= 0 {
+					c, _ := strconv.ParseInt(obs[i+4:], 10, 64)
+					crashPoints += c * n
+					if c > 0 {
+						opsWithDBWrites += n
+					}
 				}
 			}
+			exhaustive = exhaustive && st.Exhaustive
+			bounds = append(bounds, fmt.Sprintf("[%s] all histories up to depth %d (completed %d) over %d operations: %s", p.prefix, p.depth, st.DepthCompleted, len(newScen(scenarios[p.scen]).ops), p.bound))
 		}
 		run.Set("crash_points", crashPoints)
 		run.Set("crash_points_meaning", "server restarts on the DB content after every single DB operation (batch save, prefix delete) of every explored transition, each followed by the restore oracle and a claim")
 		run.Set("transitions_with_db_operations", opsWithDBWrites)
-		run.Set("exhaustive", st.Exhaustive)
-		run.Set("bound", fmt.Sprintf("all histories up to depth %d over %d operations: proof(consumer c1|c2, session 7|8 shared by both consumers, cu 10|20|30, epoch 20|30), epochUpdate+claim with tx result per claim goroutine (ok/fail) x same-session order (asc/desc) x goroutine order, snapshot, paymentEvent per proof identity, advanceChainMemory (earliest 20->30->40), crash+restart; plus a restart at every prefix of the DB-operation log", depth, len(newScen().ops)))
+		run.Set("exhaustive", exhaustive)
+		run.Set("bound", strings.Join(bounds, " ;; "))
 		run.Assume("SendNewProof is one critical section under the server lock, so concurrent arrivals are equivalent to the sequential orders that are enumerated")
 		run.Assume("a proof whose own submissions failed MaxPaymentRequestsRetiresForSession times may be dropped for good (give-up by design); proofs removed by a payment event or whose epoch left chain memory need not be restored")
 		run.Assume("the two claim goroutines of sendRewardsClaim interact only through updatePaymentRequestAttempt (one critical section each), so the two serial orders enumerated cover their interleavings")
 		run.Assume("a DB BatchSave / DeletePrefix is atomic (badger transaction); crash points lie between DB operations")
+		run.Assume("same-session-id proofs inside one claim are enumerated in two orders (ascending / descending by (epoch, consumer)), not in all permutations of groups of 3 or 4")
+		run.Assume("a proof of epoch e arrives while e <= current epoch < e + blockDistance + epochSize (a relay served just before an epoch update may deliver its proof after it)")
 	}})
 }
